@@ -54,15 +54,17 @@ Ops(s) ==
   \cup (IF \E d \in 1..Rank(s) : s[d] = 1 THEN {[op |-> "squeeze"]} ELSE {})
   \cup (IF Rank(s) >= 2 THEN {[op |-> "flatten"]} ELSE {})
   \cup {[op |-> "expand"]}
-  \cup {[op |-> o, dim |-> d, aux |-> a] : o \in {"cat", "stack"}, d \in {1, Rank(s)}, a \in {"same", "scale2", "otherq", "plain", "three"}}
+  \cup {[op |-> o, dim |-> d, aux |-> a] : o \in {"cat", "stack"}, d \in {1, Rank(s)}, a \in {"same", "scale2", "otherq", "plain", "three", "scaled_self"}}
   \cup {[op |-> "split", dim |-> d, size |-> 1, take |-> 1] : d \in {d \in 1..Rank(s) : s[d] >= 2}}
   \cup {[op |-> o, k |-> k] : o \in {"mul", "div"}, k \in {2, 3, -1}}
   \cup {[op |-> o, k |-> 2] : o \in {"mul_t", "div_t", "rmul"}}                            \* 0-dim tensor scalar; scalar on the left
-  \cup {[op |-> "div_tensor", aux |-> a] : a \in {"same", "plain"}}
+  \cup {[op |-> o, k |-> 2, oshape |-> os] : o \in {"mul_t1", "div_t1"}, os \in {<<1>>, <<1, 1>>}}   \* one-element tensors that are NOT scalars
+  \cup {[op |-> "div_tensor", aux |-> a] : a \in {"same", "plain", "scaled_self"}}
+  \cup {[op |-> "add_tensor", aux |-> a] : a \in {"same", "scaled_self"}}
   \cup {[op |-> o] : o \in {"neg", "relu", "clone", "detach", "abs", "add1", "sum", "gelu", "contiguous"}}
   \cup {[op |-> "softmax", dim |-> Rank(s)]}
   \cup {[op |-> "where", aux |-> a] : a \in {"plain", "same"}}
-  \cup {[op |-> "lt", aux |-> a] : a \in {"same", "scale2", "otherq", "plain"}}
+  \cup {[op |-> "lt", aux |-> a] : a \in {"same", "scale2", "otherq", "plain", "scaled_self"}}
   \cup {[op |-> "to", dtype |-> d] : d \in {"float16", "float32"}}
   \cup {[op |-> "copy_", aux |-> a] : a \in {"same", "plain"}}
 
@@ -83,6 +85,7 @@ FloatShape(s, o) ==
     [] o.op = "stack" -> InsertAt(s, o.dim, IF o.aux = "three" THEN 3 ELSE 2)
     [] o.op = "split" -> [s EXCEPT ![o.dim] = o.size]
     [] o.op = "sum" -> <<>>
+    [] o.op \in {"mul_t1", "div_t1"} -> IF Len(o.oshape) > Rank(s) THEN <<1>> \o s ELSE s       \* broadcasting with (1,) / (1, 1)
     [] OTHER -> s
 
 (* ---- as built ------------------------------------------------------------------------------ *)
@@ -127,7 +130,7 @@ QSem(c, o) ==
          IF PerTensor(c) THEN (IF Dev_C06_SplitStaleSize THEN QB(c, "none", c.shape, fs) ELSE QB(c, "none", fs, fs))
          ELSE Plain(c, fs)
     [] o.op \in {"mul", "div", "mul_t", "div_t", "rmul"} -> IF o.k > 0 THEN QB(c, c.axis, fs, c.pshape) ELSE Plain(c, fs)    \* only positive scalars are folded into the scale
-    [] o.op = "div_tensor" -> Plain(c, fs)
+    [] o.op \in {"div_tensor", "add_tensor", "mul_t1", "div_t1"} -> Plain(c, fs)
     [] o.op \in {"neg", "relu"} -> IF IntQ(c) THEN QB(c, c.axis, fs, c.pshape) ELSE Plain(c, fs)
     [] o.op \in {"clone", "detach"} -> c
     [] o.op = "softmax" -> QB(c, "none", fs, fs)
